@@ -44,7 +44,7 @@ TRUSTED = [
     'Driver/C09.lean: Python semantics of the operators on None/bool/int/str/list (`pyApply`, `pyEq`, `truthy`) - every oracle verdict on the implementation exercises it against CPython',
     'harness/props/c09.py adapter (builds the program on the real param.rx, reports value / exception class of every read, callbacks per update) and extract() (ast walk over class rx)',
     'list of dunders Python can dispatch (Props/C09.lean `dispatchable`; excluded on purpose: __round__, __contains__, __iter__, __bool__, __len__, __call__ - see the docstring) and of helpers (`requiredHelpers`)',
-    'correspondence is differential testing: model = code only on the programs executed; besides every observable outcome it compares, after every statement, the internal flags (_dirty, _error_state set, _root._dirty_obj) of every node that has a counterpart in the model (roots, the copy made by _resolve_accessor, derived nodes; not attribute accessors)',
+    'correspondence is differential testing: model = code only on the programs executed; besides every observable outcome it compares, after every statement, the internal flags (_dirty, _error_state set, _root._dirty_obj) of every node that has a counterpart in the model (roots, the copy made by _resolve_accessor, derived nodes; not attribute accessors, and not from the point where an operator is applied to an accessor - the rendering reads the accessor there, the code does not)',
     'CPython: operator dispatch to reflected dunders, small-int / bool / None identity for `is`',
 ]
 ASSUMPTIONS = [
@@ -55,7 +55,7 @@ ASSUMPTIONS = [
     'bind(f, *args, **kwargs): keyword arguments are modelled as further operands after the positional ones (the dependency order and evaluation order of bind()), their names travel in the function name (`#k=x,y`) and the semantics of the two keyword-taking user functions kwpair / kwsub binds them by name (Driver/C09.lean pyApply)',
     'method calls: `expr.method(args)` (`meth`) and one accessor object called twice, `acc = expr.method; acc(a); acc(b)` (`meth2`); an accessor kept across other statements or called more than twice is not generated',
     'inputs are assigned fresh objects: mutating a list in place and re-assigning the same object is outside the model (param then sees old is new, nothing is invalidated - the documented onlychanged contract; use param.trigger)',
-    'a Parameter(allow_refs=True) holding an expression as a reference (`ref` / `readref` statements): its `_sync_refs` watcher is modelled as a precedence -1 consumer that runs after all invalidations and before the precedence 0 watchers; that the holder mirrors the expression is checked by correspondence and by the oracle, there is no theorem about it; when an exception escapes an update in a program with holders the program ends there (the real dispatch then also skips the invalidation watchers registered after the raising `_sync_refs`, which is not modelled)',
+    'a Parameter(allow_refs=True) holding an expression as a reference (`ref` / `readref` statements): its `_sync_refs` watcher is modelled as a precedence -1 consumer that runs after all invalidations and before the precedence 0 watchers; the invalidation watchers of nodes created after the holder run again after it (their place in the real registration order; `invalidateFrom`); that the holder mirrors the expression is checked by correspondence and by the oracle, there is no theorem about it; when an exception escapes an update in a program with holders the program ends there (the real dispatch then also skips the invalidation watchers registered after the raising `_sync_refs`, which is not modelled; internal flags are not compared at that step)',
     'values also include floats (whole numbers and halves, exact as numerator/denominator) for round(expr) / round(expr, 0), ==, bool, str and .real/.imag only; read results are compared type-sensitively (True / 1 / 1.0 are different observations)',
     'plain attribute access `acc = expr.name` (int/bool/float data attributes real, imag, numerator, denominator) is rendered in the Lean model as the method-call statement with the total operation `attr:name` = getattr(value, name, value) and no operands (same reads, dependencies and values as the accessor node whose `_resolve` applies the pending `_method`; two unreachable extra nodes); an accessor may be read, used as operand / bind input / where branch / watched / referenced, or be the subject of ONE operator (which consumes it: known finding attribute-accessor-consumed-by-operator when it is held elsewhere); chained attribute / method access on an accessor is not generated',
     'not modelled: async / generator operations (internal Trigger), kwargs, raw bound functions (not wrapped in rx) as operands, rx.when/buffer/updating/resolve, batched updates of several parameters',
